@@ -538,9 +538,31 @@ func genHistCase(c *rig.Ctx) HistCase {
 		}
 		return rig.Pick(c.Rng, schemaNames)
 	}
+	// usually start configured: the focus schema (mostly max-in-flight) plus 0-2 others, sometimes on both clusters
+	if c.Rng.Intn(8) > 0 {
+		for _, cl := range clusterNames {
+			if cl != fc && c.Rng.Intn(3) > 0 {
+				continue
+			}
+			var list []Schema
+			f := genSchema(c, fn)
+			if c.Rng.Intn(3) > 0 {
+				f = Schema{Name: rig.Hex(fn), Strategy: rig.Hex(""), Mi: i32(int32(c.Rng.Intn(4)))}
+			}
+			list = append(list, f)
+			for _, other := range schemaNames {
+				if other != fn && c.Rng.Intn(3) == 0 {
+					list = append(list, genSchema(c, other))
+				}
+			}
+			c.Rng.Shuffle(len(list), func(i, j int) { list[i], list[j] = list[j], list[i] })
+			cur[cl] = list
+			h.Ops = append(h.Ops, Op{Op: "sync", C: rig.Hex(cl), Schemas: append([]Schema{}, list...)})
+		}
+	}
 	for len(h.Ops) < n {
 		switch r := c.Rng.Intn(100); {
-		case r < 22 || len(h.Ops) == 0:
+		case r < 20 || len(h.Ops) == 0:
 			cl := pickC()
 			list := append([]Schema{}, cur[cl]...)
 			switch m := c.Rng.Intn(20); {
@@ -589,7 +611,17 @@ func genHistCase(c *rig.Ctx) HistCase {
 			cur[cl] = list
 			h.Ops = append(h.Ops, Op{Op: "sync", C: rig.Hex(cl), Schemas: append([]Schema{}, list...)})
 		case r < 70:
-			h.Ops = append(h.Ops, Op{Op: "acq", C: rig.Hex(pickC()), N: rig.Hex(pickN()), Id: nextID})
+			cl, name := pickC(), pickN()
+			if l := cur[cl]; len(l) > 0 && c.Rng.Intn(20) < 17 {
+				// usually a configured schema, the focus one if present
+				name = rig.UnHex(l[c.Rng.Intn(len(l))].Name)
+				for _, s := range l {
+					if rig.UnHex(s.Name) == fn && c.Rng.Intn(3) > 0 {
+						name = fn
+					}
+				}
+			}
+			h.Ops = append(h.Ops, Op{Op: "acq", C: rig.Hex(cl), N: rig.Hex(name), Id: nextID})
 			open = append(open, nextID)
 			nextID++
 		default:
@@ -608,13 +640,14 @@ func genHistCase(c *rig.Ctx) HistCase {
 }
 
 // histFeatures classifies a history by what it exercised (from the real code's answers).
-func histFeatures(h HistCase, outs []Out) (nontrivial bool, bucket string) {
+func histFeatures(h HistCase, outs []Out) (nontrivial bool, list []string) {
 	type key struct{ c, n string }
 	inflight := map[key]int{}
 	conf := map[string]map[string]Schema{}
 	reqs := map[int]key{}
 	adm := map[int]bool{}
 	feats := map[string]bool{}
+
 	for k, op := range h.Ops {
 		if k >= len(outs) {
 			break
@@ -677,10 +710,7 @@ func histFeatures(h HistCase, outs []Out) (nontrivial bool, bucket string) {
 		}
 	}
 	nontrivial = feats["refused"] || feats["resize-inflight"] || feats["typechange-inflight"] || feats["delete-inflight"]
-	if len(l) == 0 {
-		return nontrivial, "hist:plain"
-	}
-	return nontrivial, "hist:" + strings.Join(l, "+")
+	return nontrivial, l
 }
 
 func genHist(c *rig.Ctx) {
@@ -688,11 +718,28 @@ func genHist(c *rig.Ctx) {
 	for i := 0; i < n && c.NFailures() < 5; i++ {
 		h := genHistCase(c)
 		outs, _ := runImplHist(h)
-		nt, bucket := histFeatures(h, outs)
+		nt, feats := histFeatures(h, outs)
+		bucket := "hist:trivial"
+		if nt {
+			bucket = "hist:nontrivial"
+		}
 		c.Case(rig.Canon(h), nt, bucket, func() interface{} { return h })
 		c.Trace()
-		for _, op := range h.Ops {
+		for _, f := range feats {
+			c.Count("hist-feature:" + f)
+		}
+		if h.Mode == "remote" {
+			c.Count("hist-mode:remote-without-clientset")
+		}
+		for k, op := range h.Ops {
 			c.Count("hist-op:" + op.Op)
+			if k < len(outs) && op.Op == "acq" && outs[k].K == "acq" {
+				d := outs[k].Desc
+				if i := strings.Index(d, ":"); i > 0 {
+					d = d[:i]
+				}
+				c.Count(fmt.Sprintf("hist-arrival:%s:admitted=%v", d, outs[k].Ok))
+			}
 		}
 		if !runHist(c, h, false) {
 			runHist(c, shrinkHist(c, h), true)
